@@ -24,12 +24,17 @@ use plan::Session;
 
 const L2_HEADER: &str = "fpdec-sim-l2 1";
 
+static MAIN_THREAD: std::sync::OnceLock<std::thread::ThreadId> = std::sync::OnceLock::new();
+
 fn silent_panic_hook() {
+    let _ = MAIN_THREAD.set(std::thread::current().id());
     // harness-only, process-global: caught panics of the real code (division
     // by zero, overflow, …) are expected outcomes, not noise for stderr
     // — except on the harness's own main thread, whose panics are bugs.
     std::panic::set_hook(Box::new(|info| {
-        if std::thread::current().name() == Some("main") {
+        // (simulated threads may be NAMED "main" too; the real one is the
+        // one whose id was recorded at start-up)
+        if MAIN_THREAD.get() == Some(&std::thread::current().id()) {
             eprintln!("HARNESS-PANIC: {}", info);
         }
     }));
